@@ -1406,6 +1406,7 @@ impl SubRule {
         // therefore we must keep track of a change in a syllable's length and update the SegPositions accordingly
         let mut total_len_change: Vec<i8> = vec![0; word.syllables.len()];
         let mut last_pos = SegPos::new(0, 0);
+        let mut input = input;
 
         // an ellipsis captures nothing, so the elements after it could not be paired with their outputs
         if let Some(el) = self.input.iter().find(|item| item.kind == ParseElement::Ellipsis) {
@@ -1478,9 +1479,11 @@ impl SubRule {
                                 res_word.syllables.insert(sp.syll_index+1, insert_syll);
                                 adjustment = 1;
                             }
+                            let mut added = adjustment;
                             if !new_syll.segments.is_empty() {
                                 res_word.syllables.insert(sp.syll_index+1+adjustment, new_syll);
                                 last_pos.syll_index = sp.syll_index + 2 + adjustment;
+                                added += 1;
                             } else {
                                 last_pos.syll_index = sp.syll_index + 1 + adjustment;
                             }
@@ -1488,7 +1491,23 @@ impl SubRule {
                             if state_index >= self.output.len()-1 {
                                 last_pos.decrement(&res_word);
                             }
-                            
+                            // the syllable has been split, so the elements captured after this one now sit in later syllables
+                            for later in input.iter_mut().skip(state_index + 1) {
+                                match later {
+                                    MatchElement::Segment(p, _) => if p.syll_index == sp.syll_index && p.seg_index > sp.seg_index {
+                                        p.syll_index += added;
+                                        p.seg_index -= sp.seg_index + 1;
+                                    } else if p.syll_index > sp.syll_index {
+                                        p.syll_index += added;
+                                    },
+                                    MatchElement::Syllable(i, _) | MatchElement::SyllBound(i, _) => if *i > sp.syll_index {
+                                        *i += added;
+                                    },
+                                }
+                            }
+                            for _ in 0..added {
+                                total_len_change.insert(sp.syll_index + 1, 0);
+                            }
                         },
                         MatchElement::SyllBound(_, _) => return Err(RuleRuntimeError::SubstitutionSyllBound(in_state.position, out_state.position))
                     }
@@ -1870,7 +1889,6 @@ impl SubRule {
                             new_syll.segments.push_front(syll.segments.pop_back().unwrap());
                         }
                         res_word.syllables.insert(pos.syll_index+1, new_syll);
-                        total_len_change.insert(pos.syll_index+1, 0);
                         pos.syll_index += 1;
                         pos.seg_index = 0;
 
